@@ -955,6 +955,21 @@ Proof.
   - intros t Ht. change (get_sess h (mp_owner p) = Some t) in Ht. congruence.
 Qed.
 
+Lemma at_do_sendoffer h c x s i stream : AT h -> AT (fst (do_sendoffer h c x s i stream)).
+Proof.
+  intros A.
+  unfold do_sendoffer.
+  destruct i as [n|n|k|n]; try (destruct (negb (send_allowed (s_perms s) stream)); [exact A|exact A]).
+  destruct (get_sess h n) as [t|] eqn:Ht; [|destruct (negb (send_allowed (s_perms s) stream)); [exact A|exact A]].
+  destruct (N.eqb_spec (s_backend t) (s_backend s)) as [Hbt|]; cbn [negb]; [|exact A].
+  destruct (N.eqb n x); [exact A|].
+  destruct (negb (send_allowed (s_perms s) stream)); [exact A|].
+  cbv zeta. set (r := match s_kind t with KVirtual p _ => p | _ => n end).
+  destruct (get_sess h r) as [rs|] eqn:Hr; [|exact A].
+  destruct (is_virtual (s_kind rs)) eqn:Hv; [exact A|].
+  destruct (sub_get rs x stream); [apply (at_cr h); [exact A|apply cr_send_session]|apply at_start_create; [exact A|]; cbn [mp_owner]; exists rs; split; [exact Hr|exact Hv]].
+Qed.
+
 Lemma at_do_media h c sid s to mk stream media :
   AT h -> get_sess h sid = Some s -> is_virtual (s_kind s) = false -> AT (fst (do_media h c sid s to mk stream media)).
 Proof.
@@ -969,7 +984,7 @@ Proof.
     + match goal with |- context [if ?c then _ else _] => destruct c end; [exact A|].
       destruct (negb (same_call h sid s _)); [exact A|].
       destruct (sub_get s _ stream); [apply (at_cr h); [exact A|apply cr_send_session]|now apply Hst].
-    + destruct (N.eqb mk 2); [|exact A].
+    + destruct (is_cand mk); [|destruct (N.eqb mk 3); [now apply at_do_sendoffer|exact A]].
       match goal with |- context [if ?c then _ else _] => destruct c end.
       * destruct (negb (send_allowed (s_perms s) stream)); [exact A|]. destruct (aget (s_pubs s) stream); exact A.
       * destruct (sub_get s _ stream); exact A.
